@@ -11,6 +11,11 @@ package client
 //vx:entry vxC04History reach=add-ok,add-clash,update-ok,update-clash,update-missing,remove-ok,remove-missing,probe-owner,probe-none,name-found,name-missing
 //vx:stub (*github.com/AdguardTeam/AdGuardHome/internal/client.upstreamManager).customUpstreamConfig vxC04CustomConf
 //vx:stub slices.overlaps vxC04Overlaps
+//vx:note Lookup entry: registry of 0..3 clients built by the real Add (assumed accepted), each with one ClientID (1 byte; thorough 1..2), one IP, one CIDR (client 0 two in thorough) and one MAC (6, 8 and 20 bytes), all bytes and prefix lengths symbolic, so equal, overlapping and nested CIDRs arise; IPv4 (quick), plus in quick a small IPv6 registry (<=2 clients with zoned/unzoned IP and CIDR, zoned/unzoned request), thorough: all-IPv6 and mixed families too; request = (ClientID absent or symbolic, symbolic address, DHCP answer chosen when asked: none or a symbolic MAC of 6/8/20 bytes). Reference = decision table ClientID > exact IP > containing CIDR of maximal length (ties between equally long prefixes left open) > leased MAC, over the raw bytes. CustomUpstreamConfig is checked against the same table without the DHCP stage (the implementation does not consult DHCP there; statement leaves it open).
+//vx:note Settings entry: one client reachable by one identifier kind, all per-client and global switches symbolic: own switches/safe-search/blocked services applied exactly when UseOwnSettings / UseOwnBlockedServices, everything else (protection switch, address, service rules) untouched.
+//vx:note History entry: 3 operations (thorough 4) forked over Add / Update(target, new version) / RemoveByName(target) on clients with all four identifier kinds or a partial set ({ClientID,CIDR} or {IP,MAC}; thorough also each single kind) so that updates drop and gain identifiers. One identifier kind (or the names) is "in focus" per run: its values are symbolic in every client (equal/overlapping/nested in all ways, incl. an update keeping its own identifiers), the other kinds are fixed and distinct (nested CIDRs 10/8 > 10.1/16 > 10.1.1/24 > 10.1.1.16/28 with the IPs inside); thorough adds a run with every kind and the names symbolic. Reference registry = slice of clients; operation accepted iff target exists and no OTHER client shares the name or an identifier. After the history: index sizes equal the reference (no stale entries), every fixed identifier ever mentioned (also of rejected, replaced and removed clients) is looked up through ApplyClientFiltering (ClientID / address / DHCP MAC) and must resolve to the reference owner or nobody, and an arbitrary request (or FindByName with an arbitrary name, whose result must carry the current identifiers) probes the kind in focus. Quick: the history ends at the first rejected operation (the checks follow immediately); thorough: goes on after rejections.
+//vx:note stubs: (*upstreamManager).customUpstreamConfig records the UID instead of building dnsproxy upstream objects; slices.overlaps (unsafe pointer arithmetic inside slices.Insert) returns false (inserted key never aliases the key list); DHCP is a harness fake whose MACByIP answer is arbitrary per request (models lease changes) and which checks it is asked about the request's source address.
+//vx:note outside: histories longer than the bounds; more than one identifier of a kind per client (except 2 CIDRs in thorough lookup); Storage.Find/FindLoose (string parsing of ids, zone-less matching) and SetIDs parsing; runtime clients; concurrency of ApplyClientFiltering with updates (lock discipline is C05); tags/upstream validation in Persistent.validate (valid clients only); UID clashes.
 //vx:opaque (net/netip.Addr).String
 //vx:opaque (net/netip.Prefix).String
 //vx:opaque (net.HardwareAddr).String
@@ -379,13 +384,20 @@ func vxC04Lookup() {
 	ctx := context.Background()
 	s := vxC04Storage()
 
-	// Address families: everything v4, everything v6, or mixed.
-	nfam := 1
+	// Address families: everything v4, everything v6, or mixed (thorough).  In
+	// the quick tier the v6 registry is small: up to 2 clients with an address
+	// and a CIDR each, request without ClientID.
+	nfam := 2
 	if vx.Thorough() {
 		nfam = 3
 	}
 	fam := vx.Choice("fam", nfam)
-	n := vx.Choice("n", 4)
+	small := fam == 1 && !vx.Thorough()
+	nmax := 3
+	if small {
+		nmax = 2
+	}
+	n := vx.Choice("n", nmax+1)
 	var regs []*vxC04C
 	for k := 0; k < n; k++ {
 		v6 := fam == 1 || (fam == 2 && k%2 == 1)
@@ -393,11 +405,19 @@ func vxC04Lookup() {
 		if k == 0 && vx.Thorough() {
 			mask |= 16
 		}
+		if small {
+			mask = 2 | 4
+		}
+		// the first v6 client's address is a zoned one
+		czone := ""
+		if v6 && k == 0 {
+			czone = "eth0"
+		}
 		cidLen := 1
 		if vx.Thorough() {
 			cidLen = 1 + k%2
 		}
-		c := vxC04Client(k, "cli"+string(rune('0'+k)), mask, v6, "", cidLen, vxC04MacLens[(k+fam)%3], false)
+		c := vxC04Client(k, "cli"+string(rune('0'+k)), mask, v6, czone, cidLen, vxC04MacLens[(k+fam)%3], false)
 		err := s.Add(ctx, c.p)
 		// pre-state: a registry the real Add accepted
 		vx.Assume(err == nil)
@@ -408,6 +428,9 @@ func vxC04Lookup() {
 	nid := 2
 	if vx.Thorough() {
 		nid = 3
+	}
+	if small {
+		nid = 1
 	}
 	id := vx.String("rid", vx.Choice("ridlen", nid))
 	rv6 := fam == 1
@@ -620,10 +643,6 @@ func vxC04HClient(k, focus, mask int, name string) *vxC04C {
 func vxC04History() {
 	ctx := context.Background()
 	s := vxC04Storage()
-	K := 3
-	if vx.Thorough() {
-		K = 4
-	}
 	// all MACs have 6 bytes here, and so has a lease, if any
 	vxC04LeaseLens = 1
 	// focus: the kind of identifier that is symbolic (0 = the names).
@@ -633,6 +652,14 @@ func vxC04History() {
 	}
 	focus := vx.Choice("focus", nfocus)
 	symNames := focus == 0 || focus == 5
+	// quick: 3 operations, the history ends at the first rejected one;
+	// thorough: 4 operations, going on after rejected ones; with everything
+	// symbolic (focus 5, thorough only) 3 operations, ending at the first
+	// rejected one.
+	K := 3
+	if vx.Thorough() && focus != 5 {
+		K = 4
+	}
 	// A "partial" client has only some kinds of identifiers (so that updates
 	// drop and gain identifiers): {ClientID, CIDR} or {IP, MAC}; thorough: also
 	// each single kind.
